@@ -221,9 +221,12 @@ Definition reduce_memmap_old (a : view) (m : backing) : result (Z * order * opti
 (* which reduction an array takes on its way to / back from a worker
    (ArrayMemmapForwardReducer.__call__, reduce_array_memmap_backward); the threshold test is translated *)
 Inductive route := RReduceBacked | RDumpTemp | RPickle.
-Definition forward_route (has_backing hasobject : bool) (max_nbytes : option Z) (nbytes : Z) : result route :=
+(* `hasobject` is numpy's dtype.hasobject (an object field at ANY depth of a structured / sub-array dtype counts);
+   `dtype_kind` is ord(dtype.kind) -- 'V' for every structured dtype, with or without object fields *)
+Definition forward_route (has_backing hasobject : bool) (dtype_kind : Z) (max_nbytes : option Z) (nbytes : Z)
+  : result route :=
   if has_backing then Ok RReduceBacked
-  else bind (forward_memmaps hasobject max_nbytes nbytes) (fun b => Ok (if b then RDumpTemp else RPickle)).
+  else bind (forward_memmaps hasobject dtype_kind max_nbytes nbytes) (fun b => Ok (if b then RDumpTemp else RPickle)).
 Definition backward_route (has_backing is_joblib_temp : bool) : route :=
   if has_backing && negb is_joblib_temp then RReduceBacked else RPickle.
 
